@@ -402,6 +402,9 @@ EXPECTED_CLASSES = {
               for r in ('wrongshape', 'evalerr')],
 }
 PARTS = ['cong', 'between', 'eigen', 'span', 'phase', 'entry', 'linear', 'shape']
+VARIANTS = [('flaw_ordering_between', 'between-real-typed-complex'), ('flaw_ordering_cong', 'congruence-real-typed-complex'),
+            ('flaw_congruence_linear', 'congruence-wraparound'), ('flaw_span_residual', 'span-rank-deficient'),
+            ('flaw_linear_squares', 'linear-complex-sum-of-squares')]
 
 
 class Reporter(object):
@@ -445,19 +448,24 @@ def run(ctx):
         missing = [k for k in EXPECTED_CLASSES[part] if not classes.get(k)]
         if missing:
             raise Machinery('vacuity: part %s never produced the classes %s' % (part, missing))
-    # ---- does the implementation-shaped model refine the property-level one?  TLC is expected to say no: the
-    #      counterexamples are the design-level defects (explanation only -- never a verdict)
-    design = {}
-    for part in (['between', 'span'] if ctx.quick else ['cong', 'between', 'span', 'linear']):
-        r = ctx.tlc('arrays/MC_Comparers.tla', 'arrays/MC_Comparers_%s_impl.cfg' % part, must_hold=False, timeout=1500)
-        if 'ImplRefines_' in r.violated:
-            m = re.findall(r'why \|-> "([^"]+)"', r.out)
-            design[part] = m[-1] if m else 'counterexample'
-        elif r.ok:
-            design[part] = 'refines'
-        else:
-            raise Machinery('MC_Comparers_%s_impl: %s\n%s' % (part, r.violated, r.out[-2000:]))
-    ctx.extra['implementation_model_vs_property'] = design
+    # ---- the implementation-shaped model (Comparers!ImplOutcome) and the property-level one.  For the current code
+    #      (Flaws = {}) LawImplDeviatesOnlyThere_ was an invariant of every part above.  Vacuity guard: each model
+    #      variant that switches one repaired code block back to its original form MUST violate ImplRefines_ (TLC
+    #      exhibits the design-level counterexample); otherwise the refinement check has lost its teeth.
+    variants = {}
+    for name, want in VARIANTS:
+        r = ctx.tlc('arrays/MC_Comparers.tla', 'arrays/MC_Comparers_%s.cfg' % name, must_hold=False, timeout=1500)
+        found = re.findall(r'why \|-> "([^"]+)"', r.out)
+        if 'ImplRefines_' not in r.violated or not found or found[-1] != want:
+            raise Machinery('vacuity guard: model variant %s does not violate ImplRefines_ with class %s (violated=%s, '
+                            'class=%s)\n%s' % (name, want, r.violated, found[-1:] or None, r.out[-1500:]))
+        variants[name] = want
+    ctx.extra['model_variants_violating'] = variants
+    # the current code still leaves the class for the eigenvalue 0 (known finding): informational, never a failure
+    r = ctx.tlc('arrays/MC_Comparers.tla', 'arrays/MC_Comparers_eigen_impl.cfg', must_hold=False, timeout=1500)
+    found = re.findall(r'why \|-> "([^"]+)"', r.out)
+    ctx.extra['current_model_vs_property'] = (found[-1] if ('ImplRefines_' in r.violated and found) else
+                                              ('refines' if r.ok else 'unclear: %s' % r.violated))
     # ---- code -> spec
     n = 4000 if ctx.quick else 48000
     cases = random_cases(ctx.rng, n)
@@ -585,7 +593,7 @@ def base_case(kind, rng, tols=('abs', 'pct')):
 
 def gen_cong(rng):
     c = base_case('cong', rng, ('abs', 'pct', 'zero'))
-    den = rng.choice([1, 1, 2, 4, 8])
+    den = rng.choice([1, 1, 2, 4, 8, 5, 10])      # 5, 10: inexact reductions (judged only off the radius-0 boundaries)
     ns = rng.choice([1, 1, 1, 3])
     form = rng.choice(['plain', 'plain', 'cplx0', 'isq', 'imag'])
     step_at = rng.randrange(ns) if rng.random() < 0.5 else None
